@@ -102,6 +102,9 @@ fn parse(text: &str, allow_substvar: bool) -> Parse {
                     Some(R_CURLY) => {
                         break;
                     }
+                    None => {
+                        break;
+                    }
                     e => {
                         self.error(format!("expected identifier or : but got {:?}", e).to_string());
                     }
@@ -246,6 +249,10 @@ fn parse(text: &str, allow_substvar: bool) -> Parse {
                         }
                         Some(R_BRACKET) => {
                             self.bump();
+                            break;
+                        }
+                        None => {
+                            self.error("Expected architecture name or ']'".to_string());
                             break;
                         }
                         _ => {
